@@ -117,3 +117,22 @@ Definition has_base (s : list text) (k : scope) (t : symtab) : Prop :=
 
 Definition top_level (t : symtab) : Prop :=
   exists c s, t = [c] /\ c_syms c = [s].
+
+(** * Side conditions on arbitrary operation sequences *)
+
+(* max_size of the context at position i *)
+Definition max_at (t : symtab) (i : nat) : nat := c_max (nth i t (context_new SGlobal)).
+
+(* the context at position i is alive (not popped) during the whole of ops *)
+Fixpoint alive (i : nat) (t : symtab) (ops : list sop) : Prop :=
+  match ops with
+  | [] => True
+  | o :: r => i < length (run_op t o) /\ alive i (run_op t o) r
+  end.
+
+(* neither the first context nor its first scope is ever popped during ops *)
+Fixpoint base_kept (t : symtab) (ops : list sop) : Prop :=
+  match ops with
+  | [] => True
+  | o :: r => run_op t o <> [] /\ c_syms (global (run_op t o)) <> [] /\ base_kept (run_op t o) r
+  end.
